@@ -163,14 +163,15 @@ class CExec:
             return ("var", rd["id"], rd.get("name"))
         if k == "MemberExpr":
             base = n["inner"][0]
+            fname = self.tu.fieldmap.get(n.get("referencedMemberDecl"), n["name"])
             if n.get("isArrow"):
                 p = self.rvalue(base, st)
-                return ("field", n["name"], p)
+                return ("field", fname, p)
             b = self.lvalue(base, st)
             if b[0] == "var":
                 return ("var", (b[1], n["name"]), "%s.%s" % (b[2], n["name"]))
             if b[0] == "mem":          # a[i].f  ==  (a+i)->f
-                return ("field", n["name"], b[2])
+                return ("field", fname, b[2])
             if b[0] == "field":        # p->s.f : nested struct by value
                 return ("field", b[1] + "." + n["name"], b[2])
         if k == "ArraySubscriptExpr":
@@ -481,7 +482,7 @@ class CExec:
 
     def havoc_heap(self, st, why, keep=()):
         for f in list(st.heap):
-            if f in keep:
+            if f in keep or f.startswith("SetIteration."):
                 continue
             st.heap[f] = fresh("H_" + f.replace("*", "deref_").replace(".", "_"), z3.ArraySort(INT, INT))
 
